@@ -27,7 +27,7 @@ P(s, d, a) == [src |-> s, dst |-> d, amt |-> a]
 SeedLog(id, kind, txid, tacct, mval, ps) ==
     [id |-> id, kind |-> kind, by |-> "init", txid |-> txid, target |-> -1, tacct |-> tacct, mval |-> mval,
      postings |-> ps, ref |-> "", ik |-> "", od |-> FALSE]
-InitStore == <<SeedLog(0, "tx", 0, "", "", <<P("world", "A", 1)>>), SeedLog(1, "set", -1, "M", "A", <<>>)>>
+InitStore == <<SeedLog(0, "tx", 0, "", "", <<P("world", "A", 3)>>), SeedLog(1, "set", -1, "M", "A", <<>>)>>
 
 Conv(j) == [id |-> j.id, kind |-> j.kind, by |-> j.by, txid |-> j.txid, target |-> j.target, tacct |-> j.tacct,
             mval |-> j.mval, postings |-> j.postings, ref |-> j.ref, ik |-> j.ik, od |-> j.od]
@@ -52,7 +52,7 @@ Consume ==
               /\ hashBad' = (hashBad \/ \E i \in 1..Len(e.logs) : ~e.logs[i].hashOk)
               /\ UNCHANGED <<req, resp, events, crashes, ended, hung>>
          [] e.ev = "resp" ->
-              /\ resp' = [resp EXCEPT ![e.p] = [st |-> e.st, txid |-> e.txid, dry |-> e.dry, ik |-> e.ik]]
+              /\ resp' = IF e.p \in DOMAIN resp THEN [resp EXCEPT ![e.p] = [st |-> e.st, txid |-> e.txid, dry |-> e.dry, ik |-> e.ik]] ELSE resp
               /\ UNCHANGED <<req, store, events, crashes, ended, hashBad, hung>>
          [] e.ev = "publish" ->
               /\ events' = Append(events, [type |-> e.type, by |-> e.by, ik |-> e.ik, txid |-> e.txid,
@@ -81,8 +81,8 @@ Failing(rq, st, rs, ev, cr, en, hb, hg) ==
         \cup T("C05_HashChain", ~hb)
         \cup T("C06_AckPersisted", AckPersisted(st, rs))
         \cup T("C06_RejectedLeavesNothing", RejectedLeavesNothing(st, failedResp))
-        \cup T("C06_OneEntryPerRequest", AtMostOneEntryPerRequest(st, procs) /\ EveryEntryHasProducer(st, procs))
-        \cup T("C07_IkOnce", IkOnce(st) /\ IkSameOutcome(rs))
+        \cup T("C06_OneEntryPerRequest", AtMostOneEntryPerRequest(st, procs) /\ EveryEntryHasProducer(st, procs \cup {"probe1", "probe2"}))
+        \cup T("C07_IkOnce", IkOnce(st) /\ IkSameOutcome(rs) /\ IkOncePerRequestKey(st, [p \in procs |-> rq[p].ik]))
         \cup T("C10_RevertOnce", RevertOnce(st) /\ RevertIsInverse(st))
         \cup T("C11_RefOnce", RefOnce(st))
         \cup T("C14_DryRun", DryLeavesNoEntry(st, dry) /\ DryPublishesNothing(ev, dry))
@@ -118,7 +118,7 @@ ObsC05_HashChain       == ~hashBad
 ObsC06_AckPersisted    == AckPersisted(store, resp)
 ObsC06_RejectedLeavesNothing == RejectedLeavesNothing(store, Failed)
 ObsC06_OneEntryPerRequest    == AtMostOneEntryPerRequest(store, Procs) /\ EveryEntryHasProducer(store, Procs)
-ObsC07_IkOnce          == IkOnce(store) /\ IkSameOutcome(resp)
+ObsC07_IkOnce          == IkOnce(store) /\ IkSameOutcome(resp) /\ IkOncePerRequestKey(store, [p \in Procs |-> req[p].ik])
 ObsC10_RevertOnce      == RevertOnce(store) /\ RevertIsInverse(store)
 ObsC11_RefOnce         == RefOnce(store)
 ObsC14_DryRun          == DryLeavesNoEntry(store, DryProcs) /\ DryPublishesNothing(events, DryProcs)
